@@ -110,6 +110,7 @@ UVWS = {
     'det4': [[2, 0, 0], [0, 1, 1], [0, -1, 1]],               # det 4
     'lefthand': [[0, 1, 0], [1, 0, 0], [0, 0, 1]],            # det -1 (left-handed order: normalize reverses the third vector)
     'left_det2': [[1, 1, 0], [1, -1, 0], [0, 0, 1]],          # det -2
+    'skew2': [[0, -1, -2], [1, 1, 2], [2, 2, 2]],             # det -2, indices up to 2: the b+c corner of the new cell lies far outside the hull of the other corners
 }
 
 
@@ -213,6 +214,8 @@ def h_conversions():
             'bcc/i': (am.Box.cubic(2.87), [[0, 0, 0], [0.5, 0.5, 0.5]], 'i', 2),
             'bct/i': (am.Box.tetragonal(3.0, 4.2), [[0, 0, 0], [0.5, 0.5, 0.5]], 'i', 2),
             'base-centred orthorhombic/c': (am.Box.orthorhombic(3.0, 4.0, 5.0), [[0, 0, 0], [0.5, 0.5, 0]], 'c', 2),
+            'rhombohedral, hexagonal axes obverse/t1': (am.Box.hexagonal(3.0, 7.5), [[0, 0, 0], [2 / 3, 1 / 3, 1 / 3], [1 / 3, 2 / 3, 2 / 3]], 't1', 3),
+            'rhombohedral, hexagonal axes reverse/t2': (am.Box.hexagonal(3.0, 7.5), [[0, 0, 0], [1 / 3, 2 / 3, 1 / 3], [2 / 3, 1 / 3, 2 / 3]], 't2', 3),
         }
         for name, (box, spos, setting, mult) in crystals.items():
             conv = am.System(atoms=am.Atoms(pos=np.array(spos, float), atype=[1] * len(spos)), box=box, scale=True, symbols=['Al'])
@@ -225,6 +228,38 @@ def h_conversions():
             d0 = np.array([[conv.dmag(i, j) for j in range(conv.natoms)] for i in range(conv.natoms)])
             ok = ok and np.allclose(sorted(d.flat), sorted(d0.flat), atol=1e-8)
             ob.append((f'{name}: conventional -> primitive -> conventional (counts, volumes, lengths, interatomic distances)', bool(ok)))
+            # atom by atom: conventional -> primitive -> conventional, undoing both returned rotations, lands every atom on an atom of
+            # the ORIGINAL conventional cell modulo its lattice (the same setting, not its mirror/180-degree twin), and the result
+            # can be reduced to the primitive cell again
+            prim1, T1 = conv.dump('conventional_to_primitive', setting=setting, return_transform=True)
+            back1, T2 = prim1.dump('primitive_to_conventional', setting=setting, return_transform=True)
+            R = np.asarray(T2, float).dot(np.asarray(T1, float))
+            invc = np.linalg.inv(conv.box.vects)
+            okrt = back1.natoms == conv.natoms
+            for q in np.asarray(back1.atoms.pos):
+                q0 = R.T.dot(q)
+                rel = np.array([(q0 - p0).dot(invc) for p0 in np.asarray(conv.atoms.pos)])
+                okrt = okrt and bool(np.any(np.all(np.abs(rel - np.round(rel)) < 1e-6, axis=1)))
+            try:
+                again = back1.dump('conventional_to_primitive', setting=setting); okrt = okrt and again.natoms == prim1.natoms
+            except ValueError:
+                okrt = False
+            ob.append((f'{name}: conventional -> primitive -> conventional returns the original atoms (rotated back, modulo the conventional lattice) and can be reduced again', bool(okrt)))
+            # the returned transformations: new cell vectors == rotated integer (centring) combinations of the old ones, and every
+            # atom of the result, rotated back, sits on an atom of the source modulo the source lattice
+            from atomman.tools import miller
+            for label, src, dst_T, uv in (('primitive_to_conventional', prim.normalize(), None, miller.vector_conventional_to_primitive(np.identity(3), setting=setting)),
+                                          ('conventional_to_primitive', conv, None, miller.vector_primitive_to_conventional(np.identity(3), setting=setting))):
+                dst, T = src.dump(label, setting=setting, return_transform=True)
+                T = np.asarray(T, float)
+                okT = np.allclose(T.dot(T.T), np.eye(3), atol=1e-9) and abs(np.linalg.det(T) - 1) < 1e-9
+                okT = okT and np.allclose((uv.dot(src.box.vects)).dot(T.T), dst.box.vects, atol=1e-8)
+                inv = np.linalg.inv(src.box.vects)
+                for q in np.asarray(dst.atoms.pos):
+                    backq = T.T.dot(q)
+                    rel = np.array([(backq - p0).dot(inv) for p0 in np.asarray(src.atoms.pos)])
+                    okT = okT and bool(np.any(np.all(np.abs(rel - np.round(rel)) < 1e-6, axis=1)))
+                ob.append((f'{name}: {label}(return_transform=True): the returned matrix is the proper rotation that carries the centring combinations of the source vectors onto the new cell and every new atom back onto a source atom modulo the source lattice', bool(okT)))
         return ob
     return fn
 
@@ -237,7 +272,7 @@ def cases(tier, seed=0):
         cs.append(Case('supersize_' + '_'.join(str(x).replace(' ', '') for x in sz), h_supersize(sz), bind=BIND, budget_s=170 if tier == 'quick' else 400, timeout_ms=15000,
                        descr=f'supersize{sz} on a symbolic cell with 2 symbolic atoms'))
     cs.append(Case('supersize_refusals', h_supersize_refuse(), concrete_only=True, budget_s=60, descr='documented refusals of supersize'))
-    combos = [('triclinic', 'lefthand'), ('ortho_origin', 'left_det2'), ('cubic', '110'), ('cubic', 'det3'), ('ortho_origin', 'swap'), ('ortho_origin', 'det4'), ('hex', 'shear'), ('hex', 'neg'), ('triclinic', '110'), ('triclinic', 'neg')]
+    combos = [('triclinic', 'lefthand'), ('ortho_origin', 'left_det2'), ('cubic', '110'), ('cubic', 'det3'), ('ortho_origin', 'swap'), ('ortho_origin', 'det4'), ('hex', 'shear'), ('hex', 'neg'), ('triclinic', '110'), ('triclinic', 'neg'), ('cubic', 'skew2')]
     if tier == 'thorough': combos = list(itertools.product(CELLS, UVWS))
     for cn, un in combos:
         for n, sub in enumerate([[(0.05, 0.45)] * 3, [(0.55, 0.95), (0.05, 0.45), (0.55, 0.95)]] if tier == 'quick' else [[(a, a + 0.45) for a in lo] for lo in itertools.product((0.03, 0.52), repeat=3)]):
